@@ -1,10 +1,12 @@
 #!/bin/bash
 # builds the SSA exporter from files on disk only (offline) and byte-compiles the executor
 set -e
+mkdir -p /verif/bin
 export GOFLAGS=-mod=mod GOPROXY=off GOSUMDB=off GOTOOLCHAIN=local
 cd /verif/engine/ssaexport
 mkdir -p /verif/bin
 go build -o /verif/bin/ssaexport .
+cd /verif/engine/gohelper && go build -o /verif/bin/gohelper .
 cd /verif
 python3-vt -m py_compile symex/gosmt.py symex/driver.py check.py
 python3-vt -c "import z3; print('z3', z3.get_version_string())"
